@@ -2,6 +2,7 @@ package netsim
 
 import (
 	"fmt"
+	"github.com/kardiachain/go-kardia/mainchain/genesis"
 	"os"
 	"strings"
 	"time"
@@ -56,7 +57,15 @@ func RandomCase(c *core.Case, prop string, maxN int, prefixMax int) {
 		run.Count("cases_with_validator_set_changes", 1)
 	}
 	restarts := r.Intn(3) == 0
-	net, err := NewNet(NetOpts{N: cfg.N, Powers: cfg.Powers, Byz: cfg.Byz, Node: func(i int) NodeOpts { return NodeOpts{Sched: sched} }})
+	// a sixth of the cases start with the chain time ahead of every clock (a genesis timestamp in the future): vote
+	// times are then bounded from below by the block's time, not by the clock
+	var gen func(*genesis.Genesis)
+	if r.Intn(6) == 0 {
+		gen = func(g *genesis.Genesis) { g.Timestamp = g.Timestamp.Add(time.Hour) }
+		cfg.Label += " genesis-ahead-of-clocks"
+		run.Count("cases_with_chain_time_ahead_of_the_clocks", 1)
+	}
+	net, err := NewNet(NetOpts{N: cfg.N, Powers: cfg.Powers, Byz: cfg.Byz, Genesis: gen, Node: func(i int) NodeOpts { return NodeOpts{Sched: sched} }})
 	if err != nil {
 		if prop == "C04" {
 			c.Violation("fresh-network-build-fails", err.Error(), cfg)
